@@ -70,7 +70,7 @@ class C09(Prop):
     named_errors = {"Null"}               # "reports the null error rather than an empty or bogus table"
     pid = "C09"
     title = "Import descriptors, name tables and the IAT are decoded as stored"
-    thm_modules = ["PeliteModel.Thm.C09", "PeliteModel.Thm.ImageLayout"]
+    thm_modules = ["PeliteModel.Thm.C09", "PeliteModel.Thm.ImageLayout", "PeliteModel.Thm.C09Layout", "PeliteModel.Thm.Witnesses64"]
 
     @property
     def gens(self):
